@@ -449,24 +449,12 @@ func runSequence(kase seqCase) seqResult {
 			}
 			return b.String()
 		}
-		if o1.Panic != "" {
-			shape := "other"
-			all := copySet(m.set)
-			for i, s := range subs {
-				if verdicts[i].auth {
-					applyEffect(all, s.P)
-				}
-			}
-			if len(all) == 0 {
-				shape = "next-set-empty"
-			}
-			return viol(map[string]string{"site": o1.PanicSite, "kind": "panic", "shape": shape}, "panic while executing the block: %s\n%s", o1.Panic, describe())
-		}
-		if len(o1.Txs) != size && o1.Err == "" {
+		if len(o1.Txs) != size && o1.Err == "" && o1.Panic == "" {
 			core.Fatal("replica executed %d of %d transactions", len(o1.Txs), size)
 		}
 		// ---- per request: verdict of the implementation against the property
 		sameKey := map[string]int{}
+		opsOn := map[string][]string{}
 		for i, s := range subs {
 			if i >= len(o1.Txs) {
 				break
@@ -508,20 +496,32 @@ func runSequence(kase seqCase) seqResult {
 				applyEffect(next, s.P)
 				if s.P.CmdType == gtypes.AdminOpChangeValidator {
 					sameKey[s.P.Target]++
+					opsOn[s.P.Target] = append(opsOn[s.P.Target], s.P.VCmd)
 				}
 			}
 			if accepted && v.auth {
 				applyEffect(next, s.P)
 				if s.P.CmdType == gtypes.AdminOpChangeValidator {
 					sameKey[s.P.Target]++
+					opsOn[s.P.Target] = append(opsOn[s.P.Target], s.P.VCmd)
 				}
 			}
 		}
-		several := false
-		for _, n := range sameKey {
+		several, ops := false, ""
+		for k, n := range sameKey {
 			if n > 1 {
 				several = true
+				if o := distinctSorted(opsOn[k]); ops == "" || o < ops {
+					ops = o
+				}
 			}
+		}
+		if o1.Panic != "" {
+			shape := "other"
+			if len(next) == 0 {
+				shape = "next-set-empty"
+			}
+			return viol(map[string]string{"site": o1.PanicSite, "kind": "panic", "shape": shape}, "panic while executing the block: %s\n%s", o1.Panic, describe())
 		}
 		// ---- the block as a whole
 		if o1.Err != "" {
@@ -529,7 +529,7 @@ func runSequence(kase seqCase) seqResult {
 			if several {
 				shape = "several-requests-same-key-in-one-block"
 			}
-			return viol(map[string]string{"site": "AdminOp.EndBlock", "kind": "accepted-requests-make-block-fail", "shape": shape},
+			return viol(map[string]string{"site": "AdminOp.EndBlock", "kind": "accepted-requests-make-block-fail", "shape": shape, "ops": ops},
 				"every request was answered, but applying the block fails (%s): the height never completes.\n%s", o1.Err, describe())
 		}
 		if d := diffObs(o1, o2); d != "" {
@@ -554,7 +554,7 @@ func runSequence(kase seqCase) seqResult {
 		}
 		if setMapString(got) != setMapString(next) {
 			if several {
-				viol(map[string]string{"site": "AdminOp.ProcessAdminOP", "kind": "same-block-requests-evaluated-against-stale-set"},
+				viol(map[string]string{"site": "AdminOp.ProcessAdminOP", "kind": "same-block-requests-evaluated-against-stale-set", "ops": ops},
 					"several accepted requests on one key in one block: next set is {%s}, applying the accepted requests in order gives {%s}\n%s", setMapString(got), setMapString(next), describe())
 			} else {
 				kind := "next-set-differs-from-reference"
@@ -585,6 +585,20 @@ func runSequence(kase seqCase) seqResult {
 		}
 	}
 	return res
+}
+
+// distinctSorted: the distinct commands, sorted, joined with "+".
+func distinctSorted(xs []string) string {
+	seen := map[string]bool{}
+	var o []string
+	for _, x := range xs {
+		if !seen[x] {
+			seen[x] = true
+			o = append(o, x)
+		}
+	}
+	sort.Strings(o)
+	return strings.Join(o, "+")
 }
 
 func sumPowers(s map[string]int64) (t int64) {
